@@ -82,11 +82,25 @@ func cstrList(ss []string) string {
 	return "[" + strings.Join(parts, "; ") + "]"
 }
 
+// cHeader renders an http.Header like coqfmt.Header (sorted keys) but with long runs in values compressed.
+func cHeader(h http.Header) string {
+	keys := make([]string, 0, len(h))
+	for k := range h {
+		keys = append(keys, k)
+	}
+	sort.Strings(keys)
+	parts := make([]string, len(keys))
+	for i, k := range keys {
+		parts[i] = "(" + coqfmt.Str(k) + ", " + cstrList(h[k]) + ")"
+	}
+	return coqfmt.List("(list N * list (list N))", parts)
+}
+
 func coqZ(n int64) string { return fmt.Sprintf("(%d)%%Z", n) }
 
 func coqResp(r respJ) string {
 	return fmt.Sprintf("(mkResp %d %d %d %s %s %s %s %s %s %s %s %s)", r.Major, r.Minor, r.Code, coqfmt.Str(r.Status),
-		coqfmt.Header(r.Hdr), coqZ(r.CL), coqfmt.Bool(r.Chunked), coqfmt.Header(r.Trailer), cstrList(r.Body),
+		cHeader(r.Hdr), coqZ(r.CL), coqfmt.Bool(r.Chunked), coqfmt.Header(r.Trailer), cstrList(r.Body),
 		coqfmt.Bool(r.Close), coqfmt.Bool(r.Uncompressed), coqfmt.Header(r.Late))
 }
 
